@@ -2,9 +2,11 @@
    Proved for all N: the generators returned by pauli_diagonalize1 (at most two), applied in order as Clifford rotations, map every non-identity string to Z on the
    requested qubit; they never touch a qubit where the string is trivial (other than the target) -- which is the causal-mode claim when the kernel is run on the suffix
    starting at i0; pauli_diagonalize2 maps an anticommuting pair to (Z, X or Y) on the target qubit.  Signs: a rotation of a Hermitian operator is Hermitian (C02), so
-   the image is +Z or -Z.  The state case is C04/C10 (backward map = encoding map, forward = its inverse).  SBRG: float coefficients and argmax ties are outside the model;
-   its diagonal-form and exactness claims are checked by the correspondence check only (PARTIAL, see DESIGN.md). *)
-From PC Require Import Model.Base Model.Pauli Model.Diag Model.Spec Proofs.DiagFacts Proofs.Rotate Proofs.IndexFacts Model.Circuit Proofs.CircuitFacts Proofs.DiagCircuitFacts.
+   the image is +Z or -Z.  The state case is C04/C10 (backward map = encoding map, forward = its inverse).  SBRG: the whole loop is modelled over exact
+   Gaussian rationals (Model/Sbrg.v) and its diagonal-form, causality and commuting-exactness claims are theorems (end of this file); floating-point rounding of the
+   coefficients is outside the model and bridged by the correspondence check (strings, order, circuit exactly; coefficients to 1e-9). *)
+From Coq Require Import QArith Qcanon.
+From PC Require Import Model.Base Model.Pauli Model.Diag Model.Spec Proofs.DiagFacts Proofs.Rotate Proofs.IndexFacts Model.Circuit Proofs.CircuitFacts Proofs.DiagCircuitFacts Model.Ket Model.Poly Model.PolySem Model.Sbrg Proofs.SbrgFacts.
 
 Theorem C18_diag1_maps_to_Z : forall g i0, (i0 < length g)%nat -> is_id_str g = false ->
   apply_gens (diagonalize1 g i0) g = z_at (length g) i0.
@@ -54,3 +56,28 @@ Theorem C18_rotation_gate_is_the_rotation : forall n gen a, length (fst gen) = n
   gate_forward n (rotation_gate gen None) [a] = Some [rotate1 gen a].
 Proof. exact rotation_gate_acts_gen. Qed.
 Print Assumptions C18_rotation_gate_is_the_rotation.
+(* SBRG, the whole loop (Model/Sbrg.v mirrors pyclifford.circuit.SBRG over exact Gaussian rationals; tied to the code by the correspondence check, floats apart):
+   for EVERY Hamiltonian, every N and every tolerance the effective Hamiltonian contains only I/Z strings; the circuit consists of proper gates, the gates of step i0 acting
+   on qubits >= i0 only; and for a Hamiltonian of mutually commuting terms (zero tolerances: exact arithmetic) no perturbative term is ever generated and the effective
+   Hamiltonian IS the input conjugated by the returned circuit, as matrices -- hence the same spectrum *)
+Theorem C18_sbrg_effective_hamiltonian_is_diagonal : forall n tol2 dtol2 h, well_sized n h -> Forall (fun t => 0 <= snd (snd t) < 4) h ->
+  Forall (fun t => diagonal (fst (snd t))) (fst (sbrg n tol2 dtol2 h)).
+Proof. exact sbrg_heff_diagonal. Qed.
+Print Assumptions C18_sbrg_effective_hamiltonian_is_diagonal.
+Theorem C18_sbrg_circuit_is_causal : forall n tol2 dtol2 h, well_sized n h -> Forall (fun t => 0 <= snd (snd t) < 4) h ->
+  exists blocks, snd (sbrg n tol2 dtol2 h) = concat blocks /\ causal_blocks n 0 blocks.
+Proof. exact sbrg_gates_causal. Qed.
+Print Assumptions C18_sbrg_circuit_is_causal.
+Theorem C18_sbrg_exact_on_commuting_hamiltonians : forall n h k k', (0 < n)%nat -> well_sized n h -> Forall (fun t => 0 <= snd (snd t) < 4) h ->
+  (forall s t, In s h -> In t h -> acq (fst (snd s)) (fst (snd t)) = 0) -> length k = n ->
+  amp (fst (sbrg n 0%Qc 0%Qc h)) k k' = amp (fold_left (fun p g => poly_gate_forward n g p) (snd (sbrg n 0%Qc 0%Qc h)) h) k k'.
+Proof. exact sbrg_commuting_exact. Qed.
+Print Assumptions C18_sbrg_exact_on_commuting_hamiltonians.
+(* the loop as it was BEFORE the repair e14aace (kept in the model as sbrg_old) does not have the first property: Z + 2^-20 X and 2Z + X + iY come back unchanged *)
+Theorem C18_sbrg_before_repair_refuted :
+  (well_sized 1 cex_small /\ Forall (fun t => 0 <= snd (snd t) < 4) cex_small /\
+   ~ Forall (fun t => diagonal (fst (snd t))) (fst (sbrg_old 1 cex_tol2 cex_dtol2 cex_small))) /\
+  (well_sized 1 cex_nilpotent /\ Forall (fun t => 0 <= snd (snd t) < 4) cex_nilpotent /\
+   ~ Forall (fun t => diagonal (fst (snd t))) (fst (sbrg_old 1 0%Qc 0%Qc cex_nilpotent))).
+Proof. exact sbrg_old_heff_not_always_diagonal. Qed.
+Print Assumptions C18_sbrg_before_repair_refuted.
